@@ -87,6 +87,18 @@ def handle (j : Json) : Except String Json := do
     match Py.filter_meta shape c (fun k _ => drop.contains k) with
     | .error e => pure (Json.mkObj [("err", Json.str (errName e))])
     | .ok c' => pure (Json.mkObj [("ok", contentJson c')])
+  | "clear_slice_meta" =>
+    let shape ← getNatList (← j.getObjVal? "shape")
+    let c ← getContent (← j.getObjVal? "content")
+    match Py.clear_slice_meta shape c with
+    | .error e => pure (Json.mkObj [("err", Json.str (errName e))])
+    | .ok c' => pure (Json.mkObj [("ok", contentJson c')])
+  | "get_keys" =>
+    let shape ← getNatList (← j.getObjVal? "shape")
+    let c ← getContent (← j.getObjVal? "content")
+    match Py.get_keys shape c with
+    | .error e => pure (Json.mkObj [("err", Json.str (errName e))])
+    | .ok ks => pure (Json.mkObj [("ok", strs ks)])
   | _ => .error s!"unknown op {op}"
 
 partial def loop (hin hout : IO.FS.Stream) : IO Unit := do
